@@ -395,7 +395,7 @@ func runC17(env *Env) {
 	cases := []*C17Case{{Synthetic: "bsdiff-target-2049", PairCase: PairCase{Seed: 1}}}
 	comps := []Comp{{"none", 0}, {"gzip", 1}, {"brotli", 1}}
 	for i := 0; i < n; i++ {
-		cases = append(cases, &C17Case{PairCase: PairCase{Seed: rng.Next(), Opts: wvlib.PairOpts{MaxFiles: 5, SmallOnly: true, Symlinks: true}, Comp: comps[i%3]}, Optimized: i%2 == 1})
+		cases = append(cases, &C17Case{PairCase: PairCase{Seed: rng.Next(), Opts: wvlib.PairOpts{MaxFiles: 5, SmallOnly: true, Symlinks: true, Triple: i%6 == 0}, Comp: comps[i%3]}, Optimized: i%2 == 1})
 	}
 	models := startModels(env)
 	wvlib.ParallelDo(len(cases), env.Workers, func(i int) {
